@@ -3,6 +3,7 @@ use std::collections::HashMap;
 use crate::engine::core::SegmentIndex;
 use crate::engine::core::segment::range_allocator::RangeAllocator;
 use crate::engine::core::segment::segment_id::SegmentId;
+use crate::engine::core::segment::segment_id_loader::SegmentIdLoader;
 use crate::shared::config::CONFIG;
 
 use super::merge_plan::MergePlan;
@@ -47,8 +48,15 @@ impl Default for KWayCountPolicy {
 
 impl CompactionPolicy for KWayCountPolicy {
     fn plan(&self, index: &SegmentIndex) -> Vec<MergePlan> {
-        // Prepare allocator seeded from all existing labels for correct naming
-        let existing_labels = index.all_labels();
+        // Prepare allocator seeded from all existing labels for correct naming.
+        // Segment directories that are on disk but not in the index (left behind by a crash,
+        // or retired and not reclaimed yet) count too: their ids must not be handed out again.
+        let mut existing_labels = index.all_labels();
+        if index.path().is_file() {
+            if let Some(shard_dir) = index.path().parent() {
+                existing_labels.extend(SegmentIdLoader::new(shard_dir.to_path_buf()).load());
+            }
+        }
         let mut allocator =
             RangeAllocator::from_existing_ids(existing_labels.iter().map(|s| s.as_str()));
 
